@@ -1,7 +1,7 @@
 """Correspondence M-VM (Lean, `nmdrv vm`) <-> the real VM: per-instruction lockstep
 replay of the trace written by harness/h_vm.c, then comparison of the final stack, the
 whole heap, the printed output and the result.  Used by C01/C03/C04/C07/C13/C14/C15."""
-import os, subprocess, shutil, glob, hashlib
+import os, subprocess, shutil, glob, hashlib, threading, itertools
 from concurrent.futures import ThreadPoolExecutor
 from common import *
 import buildimpl
@@ -14,13 +14,16 @@ class VmHarness:
         self.dir = scratch_dir("vm")
         self.exe = buildimpl.link_harness(self.info, os.path.join(VERIF, "harness", "h_vm.c"), os.path.join(self.dir, "h_vm"), ["-Wl,--wrap=exit"])
         self.n = 0
+        self._cnt = itertools.count(1)
+        self._lock = threading.Lock()
     def close(self):
         shutil.rmtree(self.dir, ignore_errors=True)
 
     def run(self, src=None, file=None, mem=5000, stack=200, gc=0, execs=1, args=(), trace=True, maxlines=400000, timeout=120, entry="main", cwd=None):
         """run the implementation; returns dict(paths, stdout bytes, rc, result lines)"""
-        self.n += 1
-        tag = os.path.join(self.dir, "r%d_%d" % (os.getpid(), self.n))
+        with self._lock:
+            k = next(self._cnt)
+        tag = os.path.join(self.dir, "r%d_%d" % (os.getpid(), k))
         d, t, r = tag + ".dump", tag + ".trace", tag + ".res"
         cmd = [self.exe, "-m", str(mem), "-s", str(stack), "-g", str(gc), "-x", str(execs), "-n", entry, "-D", d, "-R", r]
         if trace:
